@@ -63,7 +63,7 @@ def showState (s : State) : String :=
     (cs.batches.mergeSort (fun a b => a.nonce ≤ b.nonce)).map (fun b =>
       s!"b{c}.{b.nonce}={b.g}:" ++ ",".intercalate ((srt b.txs).map fun t => s!"{t.id}/{t.amount}/{t.fee}")) ++
     (cs.calls.mergeSort (fun a b => a.nonce ≤ b.nonce)).map (fun cl =>
-      s!"c{c}.{cl.nonce}={showAddr cl.sender}:{showAddr cl.refund}:{showTokens cl.tokens}:{if cl.fromMsg then 1 else 0}")
+      s!"c{c}.{cl.nonce}=u{cl.sender}:u{cl.refund}:{showTokens cl.tokens}:{if cl.fromMsg then 1 else 0}")
   " ".intercalate (bals ++ sups ++ chains)
 
 def parseTokens (w : String) : Option (List (Nat × Nat)) :=
